@@ -13,8 +13,7 @@ TRUSTED = c01.TRUSTED[:2] + [
     "on real runs the moment a message is taken by the loop is not observable: the receipt is bracketed by the callback intervals of the loop goroutine (a receipt cannot happen inside a callback)",
 ]
 PRE = c01.PRE
-SEQ_SHAPE = "go func() { for _, cmd := range msg { if cmd == nil { continue } msg := cmd() if batchMsg, ok := msg.(BatchMsg); ok { g, _ := errgroup.WithContext(p.ctx) for _, cmd := range batchMsg { cmd := cmd g.Go(func() error { p.Send(cmd()) return nil }) } g.Wait() continue } p.Send(msg) } }()"
-SEQUENCE_SHAPE = "{ return func() Msg { return sequenceMsg(cmds) } }"
+# shapes frozen in coq/theories/RefShapes.v (alpha-normalised by the translator)
 
 
 def gen(tier, rnd):
@@ -218,10 +217,8 @@ def coq_row(i, c, r):
 
 
 def tie_seq(res):
-    pre = ("From Coq Require Import List Bool String.\nImport ListNotations.\nOpen Scope string_scope.\nFrom BTGen Require Signals.\n")
-    esc = lambda s: s.replace('"', '""')   # noqa: E731
-    body = ["Definition shape_is (n b : string) := match find (fun x => fst x =? n) Signals.shapes with Some (_, b') => b' =? b | None => false end.",
-            'Definition t := (shape_is "eventLoop:sequenceMsg" "%s", shape_is "Sequence" "%s").' % (esc(SEQ_SHAPE), esc(SEQUENCE_SHAPE))]
+    pre = ("From Coq Require Import List Bool String.\nImport ListNotations.\nOpen Scope string_scope.\nFrom BT Require Model.SkelTie.\nFrom BTGen Require Signals.\n")
+    body = ['Definition t := (SkelTie.shapes_ok_for ["eventLoop:sequenceMsg"], SkelTie.shapes_ok_for ["Sequence"]).']
     vals, _ = C.coq_eval("cases_C03_tie", pre, body, ["t"], timeout=300)
     flags = [x == "true" for x in __import__("re").findall(r'true|false', vals["t"])]
     ok = all(flags) and len(flags) == 2
